@@ -94,6 +94,10 @@ def _run_from_file(case):
                 sm = st.get_summary("g", mets[m])
                 pv = [x.t for x in present]
                 a = sm.avg
+                if isinstance(a, float) and (a != a or a in (float("inf"), float("-inf"))):
+                    # a non-finite summary although only finite values may enter it
+                    h.fail("avg_is_mean_of_present_values", detail={"metric": mets[m], "avg": repr(a), "finite_values": len(pv)})
+                    continue
                 h.ok("avg_is_mean_of_present_values", (a.t if isinstance(a, SNum) else z3.RealVal(a)) * len(pv) == z3.Sum(pv))
         h.note_nontrivial(tuple(k for (_, k) in cell.values()))
         h.witness(expect=None)
